@@ -442,6 +442,81 @@ theorem old_formula_shares :
     (enter [none, some 2, some 3] true 4).toOption = some (0, [some 4, some 2, some 3]) := by
   decide
 
+/-! ### initialisation and several terminals: every terminal is on its own
+
+The slot table `initialize` creates has exactly as many slots as the hardware reports FMMUs, so "one of the terminal's
+`n`" in `live_owns_slot` means an FMMU that exists; and a history over several terminals is, seen from each terminal,
+the history of the operations addressed to it — nothing another terminal does reaches it. -/
+
+theorem init_table (n : Nat) : (init n).table.length = n ∧ ∀ i, i < n → (init n).table[i]? = some none := by
+  refine ⟨by simp [init], ?_⟩
+  intro i hi
+  simp [init, hi]
+
+/-- `initialize` switches off exactly the FMMUs that exist: one write per FMMU, to its activate register -/
+theorem init_writes (n : Nat) : (initWrites n).length = n ∧
+    ∀ i, i < n → (initWrites n)[i]? = some ⟨(fmmu_reg_base + fmmu_reg_activate : Nat) + fmmu_reg_stride * (i : Int), [0]⟩ := by
+  refine ⟨by simp [initWrites], ?_⟩
+  intro i hi
+  simp [initWrites, deactivateWr, hi]
+
+theorem busStep_other (b : Bus) (o : Nat × Op) (j : Nat) (h : o.1 ≠ j) : (busStep b o).1[j]? = b[j]? := by
+  unfold busStep busStepAt
+  cases hb : b[o.1]? with
+  | none => rfl
+  | some t => simp [h]
+
+theorem busStep_self (b : Bus) (i : Nat) (op : Op) (t : Term) (h : b[i]? = some t) :
+    (busStep b (i, op)).1[i]? = some ⟨t.cfg, (step t.cfg t.st op).1⟩ := by
+  have hi : i < b.length := by
+    rcases Nat.lt_or_ge i b.length with h' | h'
+    · exact h'
+    · simp [List.getElem?_eq_none h'] at h
+  unfold busStep busStepAt
+  simp only [h]
+  rw [List.getElem?_set_self hi]
+
+/-- **independence of terminals**: after any history over the whole bus, terminal `i` is in the state the operations
+addressed to it alone produce -/
+theorem bus_projection (os : List (Nat × Op)) : ∀ (b : Bus) (i : Nat) (t : Term), b[i]? = some t →
+    (busRun b os)[i]? = some ⟨t.cfg, run t.cfg t.st (opsOf i os)⟩ := by
+  induction os with
+  | nil => intro b i t h; simpa [busRun, opsOf, run] using h
+  | cons o os ih =>
+    intro b i t h
+    obtain ⟨j, op⟩ := o
+    by_cases hj : j = i
+    · subst hj
+      have := ih _ j _ (busStep_self b j op t h)
+      simpa [busRun, opsOf, run] using this
+    · have h' : (busStep b (j, op)).1[i]? = some t := by rw [busStep_other b (j, op) i hj]; exact h
+      have := ih _ i t h'
+      have hne : (j == i) = false := by simpa using hj
+      simpa [busRun, opsOf, run, hne] using this
+
+/-- **the property on a bus of terminals**, from initialisation on: whatever is done on all the terminals in whatever
+interleaving, the live mappings of terminal `i` hold pairwise different FMMUs, each one of the `n` FMMUs terminal `i`
+really has, each recorded with its own logical address, and no slot stays taken without owner -/
+theorem bus_live (ts : List (Nat × Cfg)) (os : List (Nat × Op)) (i n : Nat) (cfg : Cfg) (h : ts[i]? = some (n, cfg)) :
+    ∃ s, (busRun (busInit ts) os)[i]? = some ⟨cfg, s⟩ ∧
+      s.live.Pairwise (fun a b => a.index ≠ b.index) ∧
+      (∀ m ∈ s.live, ∃ k : Nat, k < n ∧ m.index = (k : Int) ∧ s.table[k]? = some (some m.logical)) ∧
+      (∀ (k l : Nat), s.table[k]? = some (some l) → ∃ m ∈ s.live, m.index = (k : Int)) ∧
+      s.table.length = n := by
+  have hb : (busInit ts)[i]? = some ⟨cfg, init n⟩ := by simp [busInit, h]
+  refine ⟨_, bus_projection os _ i _ hb, live_distinct n cfg _, live_owns_slot n cfg _, no_leak n cfg _, ?_⟩
+  rw [run_length cfg _ _ (inv_init n)]; simp [init]
+
+/-- non-vacuity, and the case a two-slot table on a one-FMMU terminal gets wrong: on a bus of a 1-FMMU and a 2-FMMU terminal
+the second overlapping mapping of the first terminal is refused while the second terminal still serves two -/
+def bus0 : List (Nat × Cfg) := [(1, cfg1), (2, cfg1)]
+  where cfg1 : Cfg := { outOff := 0x1100, outSz := 4, inOff := 0x1180, inSz := 6 }
+
+example : (busTrace (busInit bus0) [(0, .enter true 100 false), (1, .enter true 200 false), (0, .enter false 300 false),
+      (1, .enter false 400 false), (0, .exit 0 .normal), (0, .enter false 500 false)]).map (fun r => (r.1, r.2.1, r.2.2.2)) =
+    [(0, .entered 0, [some 100]), (1, .entered 1, [none, some 200]), (0, .failed .valueError, [some 100]),
+     (1, .entered 0, [some 400, some 200]), (0, .exited, [none]), (0, .entered 0, [some 500])] := by decide
+
 /-! ### non-vacuity: overlapping mappings on a 3-FMMU terminal -/
 def cfg0 : Cfg := { outOff := 0x1100, outSz := 4, inOff := 0x1180, inSz := 6 }
 def ops0 : List Op :=
